@@ -20,7 +20,8 @@ MANIFEST = {
             "an independently written specification encoder over the objects (C09_observe_eq_spec, all classes, nested); scan "
             "gating per component kind; absent / deleted / node-not-ON read as default with operating_status still reported; slot "
             "i+1 reads configured component i, padding reads default, ACL entry i is list position i; the folder cache equals the "
-            "visible health at every step of every scan-coherent trajectory; NMNE memory holds the previous counters. "
+            "visible health at every step of every scan-coherent trajectory; NMNE memory holds the previous counters, and the NMNE "
+            "leaves follow the observed interface's OWN network settings (C09_nmne_follows_interface; F-10 repaired). "
             "WHICH option governs which leaf is proved from the scenario's words (Model/ObsConfig): the effective option of a host "
             "= host-level value if given, else nodes-level value, else the documented default, for every inheritable option "
             "(C09_effective_options, full since the F-C09-3 repair; counterexample for the old default proved), likewise routers / "
@@ -122,7 +123,7 @@ def chaos(game, rng: Rng) -> None:
                            "tcp": {80: {"inbound": rng.choice([0, 12.5, 99.0, 1000.0]), "outbound": 0}, 5432: {"inbound": 3.0, "outbound": 7.0}}}
         elif k == 13 and node.network_interface:
             nic = rng.choice(list(node.network_interface.values()))
-            if nic.nmne_config and nic.nmne_config.capture_nmne:
+            if nic.nmne_settings.capture_nmne:
                 d = nic.nmne.setdefault("direction", {}).setdefault(rng.choice(["inbound", "outbound"]), {}).setdefault("keywords", {})
                 d["*"] = d.get("*", 0) + rng.choice([1, 2, 6, 11])
     except Exception:  # noqa: BLE001 - a refused mutation is not an observation concern
@@ -180,7 +181,7 @@ def check_truth_run(ctx: Ctx, rname: str, res: dict, by_track: Dict[str, List[st
                       f"(episode {inc['episode']} step {inc['step']}): the folder observation cannot show it", dict(inc, recipe=recipe))
     for key, tr in res["tracks"].items():
         model = by_track[key]
-        if model[2] != "ok":
+        if model[env.CFG_AT] != "ok":
             continue  # reported by check_env
         step = -1
         for idx in range(tr["first"], len(tr["impl"])):
@@ -244,8 +245,8 @@ def acl_family(ctx: Ctx, rng: Rng, n: int) -> int:
         obj = rig.build_impl(cfg)
         if obj is None:
             raise RuntimeError(f"ACL family configuration rejected: {getattr(rig.build_impl, 'last_error', '?')}")
-        lines = ["reset", "capture 0", rig.rawcfg_line({"type": "nodes", "options": opts}, None)]
-        impl: List[Any] = [None, None, None]
+        lines = ["reset", rig.rawcfg_line({"type": "nodes", "options": opts}, None)]
+        impl: List[Any] = [None, None]
         acls = [getattr(node, a) for a in (rig.ACL_NAMES[1:] if fw else ["acl"])]
         for _round in range(3):
             for acl in acls:
@@ -284,11 +285,11 @@ def acl_family(ctx: Ctx, rng: Rng, n: int) -> int:
     bad = 0
     ctx.count("acl-family:distinct-presence-combinations-of-7-fields", len(seen_bits))
     for st, lines, impl, cfg in cases:
-        if model_all[st + 2] != "ok":
+        if model_all[st + 1] != "ok":
             bad += 1
-            ctx.violation({"kind": "model-vs-impl", "what": "construction accepted/rejected", "class": "acl-family"}, f"acl family: model answers {model_all[st + 2]}", {"cfg": cfg})
+            ctx.violation({"kind": "model-vs-impl", "what": "construction accepted/rejected", "class": "acl-family"}, f"acl family: model answers {model_all[st + 1]}", {"cfg": cfg})
             continue
-        for i in range(3, len(lines)):
+        for i in range(2, len(lines)):
             o, exc = impl[i]
             spec, mv = parse_spec_line(model_all[st + i])
             ctx.count("acl-family:states-compared")
@@ -375,7 +376,6 @@ def slot_oracle(ctx: Ctx, rng: Rng, n: int) -> int:
     The count of a host is its own `num_*` when given, else the nodes-level one."""
     bad = 0
     for k in range(n):
-        rig.set_capture(False)
         obj, facts = rig.gen_object(rng, defects=False)
         if obj is None:
             continue
